@@ -37,7 +37,7 @@ WIDTH_SETS = [
     {"A": "C", "B": "A", "C": "B"},  # the same resource names bound to other width tables
 ]
 
-N = lambda v: Fr(v)  # noqa
+N = lambda v: gfx.num(v)  # noqa
 
 # form XObjects, written as event lists so that the model interprets what the file contains
 FORMS: Dict[str, Dict[str, Any]] = {
@@ -121,7 +121,7 @@ SIG = {
     "g": "n", "rg": "nnn", "Do": "N",
 }
 
-GS0 = {"ctm": gfx.IDENT, "Tc": Fr(0), "Tw": Fr(0), "Th": Fr(1), "Tl": Fr(0), "font": None, "Tfs": None, "rise": Fr(0),
+GS0 = {"ctm": gfx.IDENT, "Tc": 0, "Tw": 0, "Th": 1, "Tl": 0, "font": None, "Tfs": None, "rise": 0,
        "fill": ("DeviceGray", UNSET)}
 
 # deviations = diagnosed causes; the verdict never uses them, only the signature does
@@ -196,45 +196,45 @@ class TM:
         elif op == "ET":
             self.intext = False
         elif op == "Tc":
-            g["Tc"] = Fr(a[0])
+            g["Tc"] = gfx.num(a[0])
         elif op == "Tw":
-            g["Tw"] = Fr(a[0])
+            g["Tw"] = gfx.num(a[0])
         elif op == "Tz":
             g["Th"] = Fr(a[0]) / 100
         elif op == "TL":
-            g["Tl"] = Fr(a[0])
+            g["Tl"] = gfx.num(a[0])
         elif op == "Ts":
-            g["rise"] = Fr(a[0])
+            g["rise"] = gfx.num(a[0])
         elif op == "Tf":
             g["font"] = self.res["fonts"][a[0][1:]]
-            g["Tfs"] = Fr(a[1])
+            g["Tfs"] = gfx.num(a[1])
         elif op == "Td":
-            self._td(Fr(a[0]), Fr(a[1]))
+            self._td(gfx.num(a[0]), gfx.num(a[1]))
         elif op == "TD":
-            g["Tl"] = -Fr(a[1])
-            self._td(Fr(a[0]), Fr(a[1]))
+            g["Tl"] = -gfx.num(a[1])
+            self._td(gfx.num(a[0]), gfx.num(a[1]))
         elif op == "Tm":
             self.Tm = self.Tlm = gfx.mat(*a)
         elif op == "T*":
-            self._td(Fr(0), -g["Tl"])
+            self._td(0, -g["Tl"])
         elif op == "Tj":
             self._show([a[0]])
         elif op == "TJ":
             self._show(list(a[0]))
         elif op == "'":
-            self._td(Fr(0), -g["Tl"])
+            self._td(0, -g["Tl"])
             self._show([a[0]])
         elif op == '"':
-            g["Tw"] = Fr(a[0])
-            g["Tc"] = Fr(a[1])
+            g["Tw"] = gfx.num(a[0])
+            g["Tc"] = gfx.num(a[1])
             if D_DQ not in self.dev:
-                self._td(Fr(0), -g["Tl"])
+                self._td(0, -g["Tl"])
             self._show([a[2]])
         elif op == "g":
-            g["fill"] = ("DeviceGray", Fr(a[0]))
+            g["fill"] = ("DeviceGray", gfx.num(a[0]))
             self.gcs = "DeviceGray"
         elif op == "rg":
-            g["fill"] = ("DeviceRGB", tuple(Fr(x) for x in a))
+            g["fill"] = ("DeviceRGB", tuple(gfx.num(x) for x in a))
             self.gcs = "DeviceRGB"
         elif op == "Do":
             self._form(a[0][1:])
@@ -247,13 +247,13 @@ class TM:
         # diagnosed partial executions (signature only)
         if op in ("Td", "TD") and len(a) == 2 and D_TD in self.dev:
             if op == "TD" and gfx.is_num(a[1]):
-                self.gs["Tl"] = -Fr(a[1])
+                self.gs["Tl"] = -gfx.num(a[1])
             self.Tm = self.Tlm
         if op == "Tf" and len(a) == 2 and D_TF in self.dev and isinstance(a[0], str):
             self.gs["font"] = self.res["fonts"][a[0][1:]]
 
     def _td(self, tx, ty):
-        self.Tlm = gfx.mat_mul((Fr(1), Fr(0), Fr(0), Fr(1), tx, ty), self.Tlm)
+        self.Tlm = gfx.mat_mul((1, 0, 0, 1, tx, ty), self.Tlm)
         self.Tm = self.Tlm
 
     def _show(self, seq):
@@ -271,12 +271,12 @@ class TM:
             if isinstance(el, bytes):
                 for code in el:
                     if lazy and need:
-                        self.Tm = gfx.mat_mul((Fr(1), Fr(0), Fr(0), Fr(1), Tc * Th, Fr(0)), self.Tm)
+                        self.Tm = gfx.mat_mul((1, 0, 0, 1, Tc * Th, 0), self.Tm)
                     w0 = Fr(widths[code], 1000)
                     adv = w0 * Tfs * Th
                     m = gfx.mat_mul(self.Tm, ctm)
                     d = Fr(font["descent"], 1000) * Tfs
-                    box = [(Fr(0), d + rise), (adv, d + rise), (adv, d + rise + Tfs), (Fr(0), d + rise + Tfs)]
+                    box = [(0, d + rise), (adv, d + rise), (adv, d + rise + Tfs), (0, d + rise + Tfs)]
                     bb = gfx.bound([gfx.mat_pt(m, p) for p in box])
                     out.append({
                         "text": chr(code), "font": font["name"], "matrix": m, "adv": adv, "bbox": bb,
@@ -286,11 +286,11 @@ class TM:
                     if not lazy:
                         tx += Tc * Th
                     need = True
-                    self.Tm = gfx.mat_mul((Fr(1), Fr(0), Fr(0), Fr(1), tx, Fr(0)), self.Tm)
+                    self.Tm = gfx.mat_mul((1, 0, 0, 1, tx, 0), self.Tm)
             elif gfx.is_num(el):
                 tx = -Fr(el) / 1000 * Tfs * Th
                 need = True
-                self.Tm = gfx.mat_mul((Fr(1), Fr(0), Fr(0), Fr(1), tx, Fr(0)), self.Tm)
+                self.Tm = gfx.mat_mul((1, 0, 0, 1, tx, 0), self.Tm)
         self.out = tuple(out)
 
     def _form(self, name):
